@@ -1,6 +1,7 @@
 package main
 
 import (
+	"google.golang.org/protobuf/encoding/protowire"
 	"bytes"
 	"fmt"
 	"os"
@@ -549,6 +550,21 @@ func artefactsOf(md protoreflect.MessageDescriptor) []artefact {
 	return out
 }
 
+// artefactMessage: the message type held by the artefact's field (list element, map value, oneof member).
+func artefactMessage(fd protoreflect.FieldDescriptor) protoreflect.MessageDescriptor {
+	if fd.IsMap() {
+		return fd.MapValue().Message()
+	}
+	return fd.Message()
+}
+
+func scalarOf(md protoreflect.MessageDescriptor) protoreflect.FieldDescriptor {
+	if md == nil {
+		return nil
+	}
+	return firstScalarField(md)
+}
+
 // listWithNil stores an n-element list whose elements at the given indexes are messages with one field
 // populated and whose other elements are nil.
 func listWithNil(p proto.Message, fd protoreflect.FieldDescriptor, n int, filled ...int) bool {
@@ -716,6 +732,45 @@ func runArtefactsOn(h *hz.H, md protoreflect.MessageDescriptor, only *c09case, b
 				report("Size/Marshal", fmt.Sprintf("proto.Size/Marshal on %s with %s in field %s: panic=%v err=%v; the reference codec over the same struct encodes it as %x", tname, aname, a.fd.Name(), gotP, gerr, refB))
 			} else if !bytes.Equal(gotB, refB) || gotSize != len(gotB) {
 				report("Size/Marshal", fmt.Sprintf("%s with %s in field %s: generated size=%d bytes=%x, reference bytes=%x", tname, aname, a.fd.Name(), gotSize, gotB, refB))
+			}
+			// a merging decode that carries the artefact's field: data must end up in the message as with the reference
+			// decoder over the same struct (never dropped into a nil message)
+			if inner := scalarOf(artefactMessage(a.fd)); inner != nil {
+				sub := enum.NewDyn(artefactMessage(a.fd))
+				sub.Set(inner, sampleValue(inner, 1))
+				subEnc, _ := proto.Marshal(sub.Interface())
+				var stream []byte
+				if a.fd.IsMap() {
+					k0 := enum.ScalarAlphabet(a.fd.MapKey(), enum.Reduced)[0]
+					kd := enum.NewDyn(a.fd.Message())
+					kd.Set(a.fd.MapKey(), k0)
+					ent, _ := proto.Marshal(kd.Interface()) // key record only (empty for the zero key)
+					ent = protowire.AppendBytes(protowire.AppendTag(ent, 2, protowire.BytesType), subEnc)
+					stream = protowire.AppendBytes(protowire.AppendTag(nil, a.fd.Number(), protowire.BytesType), ent)
+				} else {
+					stream = protowire.AppendBytes(protowire.AppendTag(nil, a.fd.Number(), protowire.BytesType), subEnc)
+				}
+				r1, _ := mk()
+				r2, _ := mk()
+				var refC, gotC string
+				rp := hz.Catch(func() {
+					if _, err := (proto.UnmarshalOptions{Merge: true}).UnmarshalState(protoiface.UnmarshalInput{Message: mi.MessageOf(r1), Buf: stream}); err != nil {
+						panic(err)
+					}
+					refC = enum.Canon(mi.MessageOf(r1), true)
+				})
+				h.Eval(true, hz.Hash("C09a", tname, aname, fmt.Sprint(a.fd.Number()), "merge-decode"))
+				if rp == nil {
+					gp := hz.Catch(func() {
+						if err := (proto.UnmarshalOptions{Merge: true}).Unmarshal(append([]byte(nil), stream...), r2); err != nil {
+							panic(err)
+						}
+						gotC = enum.Canon(mi.MessageOf(r2), true)
+					})
+					if gp != nil || gotC != refC {
+						report("Merge-decode", fmt.Sprintf("merging decode of %x into %s with %s in field %s: generated decoder leaves %s (panic/err %v); the reference decoder over the same struct leaves %s", stream, tname, aname, a.fd.Name(), clipS(gotC), gp, clipS(refC)))
+					}
+				}
 			}
 			// generic library calls must accept what the reference accepts
 			// a nil element / value reads as an empty message: two such messages are equal, and so is a clone
